@@ -99,12 +99,25 @@ ENTRY int verif_multipolygon_log(const int* xy, const unsigned* rings, const uns
     return rc;
 }
 
-// real WKB implementation; wkbtype: 0 wkb, 1 ewkb; hex: 0 binary, 1 hex
+// real WKB implementation; wkbtype bit 0: 0 wkb, 1 ewkb; bit 1: the factory has a history of rejected objects; hex: 0 binary, 1 hex
 ENTRY int verif_wkb(int what, int un, int dir, int wkbtype, int hex, const int* xy, unsigned n, const unsigned* rings, const unsigned char* kinds, unsigned nrings,
                     unsigned char* out, unsigned cap, unsigned* outlen) {
     memory::Buffer b{2048};
-    geom::GeometryFactory<geom::detail::WKBFactoryImpl, BitProjection> f{wkbtype ? geom::wkb_type::ewkb : geom::wkb_type::wkb, hex ? geom::out_type::hex : geom::out_type::binary};
+    geom::GeometryFactory<geom::detail::WKBFactoryImpl, BitProjection> f{(wkbtype & 1) ? geom::wkb_type::ewkb : geom::wkb_type::wkb, hex ? geom::out_type::hex : geom::out_type::binary};
     std::string s;
+    if (wkbtype & 2) {
+        // history: the same factory object has rejected degenerate objects before (one-point way, three-point polygon, invalid location in the middle of a way and of a ring)
+        memory::Buffer pb{2048};
+        const int one[] = {1, 1}; const int three[] = {1, 1, 2, 2, 3, 3}; const int bad[] = {1, 1, 1900000000, 5, 2, 2};
+        const unsigned r3[] = {3}; const unsigned char k0[] = {0};
+        build_way(pb, one, 1); build_way(pb, three, 3); build_way(pb, bad, 3); build_area(pb, bad, r3, k0, 1);
+        std::size_t off = 0; const Way* ways[3];
+        for (auto& wp : ways) { wp = &pb.get<Way>(off); off += wp->padded_size(); }
+        try { f.create_linestring(*ways[0]); } catch (const std::exception&) {}
+        try { f.create_polygon(*ways[1]); } catch (const std::exception&) {}
+        try { f.create_linestring(*ways[2], geom::use_nodes::all); } catch (const std::exception&) {}
+        try { f.create_multipolygon(pb.get<Area>(off)); } catch (const std::exception&) {}
+    }
     try {
         const auto u = un ? geom::use_nodes::unique : geom::use_nodes::all; const auto d = dir ? geom::direction::backward : geom::direction::forward;
         if (what == 3) { build_area(b, xy, rings, kinds, nrings); s = f.create_multipolygon(b.get<Area>(0)); }
